@@ -47,7 +47,9 @@ def same_shape(rng, v, leaf):
 def gen_samples(rng, leaves=LEAVES):
     n = rng.randint(1, 3)
     fields = {}
-    for name in rng.sample(["a", "b", "c", "d", "e"], k=rng.randint(1, 4)):
+    # keys whose field name differs from the key (camelCase, keyword, kebab, space, builtin, non-ASCII) next to plain ones
+    for name in rng.sample(["a", "b", "c", "itemIds", "maxValue", "class", "kebab-key", "with space", "list", "naïve"],
+                           k=rng.randint(1, 4)):
         leaf = rng.choice(leaves)
         fields[name] = (gen_field(rng, rng.randint(0, 3), leaf), leaf)
     samples = []
@@ -166,7 +168,7 @@ def check_case(samples, job, registry):
     for s in samples:
         kwargs = {}
         for k, v in s.items():
-            kwargs[prepare_label(k, convert_unicode=True, to_snake_case=True)] = v
+            kwargs[prepare_label(k, convert_unicode=job.get("convertUnicode", True), to_snake_case=True)] = v
         try:
             obj = cls(**kwargs)
         except stages.TooCostly:
